@@ -33,12 +33,15 @@ pub fn apply_reg(b: &mut SchemeBuilder, op: &Value) -> &'static str {
 }
 
 pub fn probe(s: &Scheme, name: &str) -> Value {
+    // a lookup resolves the complete name: what comes back must carry that very name
     let field = match s.get_field(name) {
-        Ok(f) => json!({"ok": true, "ty": Ty::from_engine(wirefilter::GetType::get_type(&f)),
+        Ok(f) if f.name() == name => json!({"ok": true, "ty": Ty::from_engine(wirefilter::GetType::get_type(&f)),
                         "opt": f.optional(), "idx": f.index()}),
+        Ok(f) => json!({"ok": true, "ty": Ty::from_engine(wirefilter::GetType::get_type(&f)),
+                        "opt": f.optional(), "idx": f.index(), "resolved_to_another_name": f.name()}),
         Err(_) => json!({"ok": false}),
     };
-    let func = s.get_function(name).is_ok();
+    let func = matches!(s.get_function(name), Ok(f) if f.name() == name);
     let asvalue = std::panic::catch_unwind(std::panic::AssertUnwindSafe(|| s.parse_value(name).is_ok())).unwrap_or(false);
     let call = format!("{name}()");
     let ascall = std::panic::catch_unwind(std::panic::AssertUnwindSafe(|| s.parse_value(&call).is_ok())).unwrap_or(false);
